@@ -162,8 +162,9 @@ def _t3_cfg(name, tagclass, standard, nbr=4, nbw=2, nmaxb=4, old_len=40,
 
     def make():
         if standard:
-            sim = c16sims.FelicaStandardSim(bytearray(case.image0), nbr=nbr,
-                                            nbw=nbw)
+            cls = c16sims.FelicaStandard2Sim if standard == 2 \
+                else c16sims.FelicaStandardSim
+            sim = cls(bytearray(case.image0), nbr=nbr, nbw=nbw)
         else:
             sim = case.new_sim()
         case.preload(sim, old)
@@ -209,6 +210,8 @@ def configs(tier):
         _lite_cfg(False),
         _lite_cfg(True),
         _t3_cfg('T3-standard', 'FelicaStandard', True),
+        # the same card with a second system (8008h) that has no NDEF service
+        _t3_cfg('T3-standard-2sys', 'FelicaStandard', 2),
         # Type 4A: FSC 256, FSD 128 (response chaining), 3 ISO-DEP retries
         _t4_cfg('T4A-fwi10', 'A', 8, 10, 128, 255, 100, 200, 120),
         # Type 4B: FSC 32 (command chaining), 1 ISO-DEP retry
@@ -735,10 +738,106 @@ def summary(res):
 # ---------------------------------------------------------------------------
 # driver
 # ---------------------------------------------------------------------------
+# ---------------------------------------------------------------------------
+# histories on one tag object: a write that fails for good, another
+# operation, the write again - all but the first fault free
+# ---------------------------------------------------------------------------
+HIST_MIDDLE = ('none', 'ndef-read', 'is-present', 'dump')
+
+
+def hist_positions(n):
+    if n <= 12:
+        return list(range(1, n + 1))
+    return sorted(set([1, 2, 3, n // 3, n // 2, (2 * n) // 3, n - 2, n - 1,
+                       n]))
+
+
+def history(cfg, ops, fault, middle):
+    """-> (results [a, b, c], command counts) of: ndef-write disturbed from
+    command p on (for good), `middle` fault free, ndef-write fault free, on
+    ONE tag object."""
+    sim = cfg.make()
+    noise = io.StringIO()
+    by_name = dict((o.name, o) for o in ops)
+    wr = by_name['ndef-write']
+    res, counts = [], []
+    with contextlib.redirect_stdout(noise):
+        clf, tag = tagsim.activate(sim, **cfg.clf_args)
+        nd = wr.pre(tag, cfg)
+        steps = [(wr, nd, fault)]
+        if middle != 'none':
+            steps.append((by_name[middle], None, None))
+        steps.append((wr, nd, None))
+        for op, x, flt in steps:
+            inj = Injector(flt)
+            sim.hook = inj
+            try:
+                r, exc = call(lambda: op.run(tag, x, cfg))
+            finally:
+                sim.hook = None
+            res.append(r)
+            counts.append(inj.k)
+    return res, counts
+
+
+def work_history(item):
+    _, ci = item
+    cfg = STATE['cfgs'][ci]
+    ops = STATE['ops'][ci]
+    run = Run(PROP)
+    wr = [o for o in ops if o.name == 'ndef-write'][0]
+    try:
+        ff = execute(cfg, wr, None)
+    except HarnessError:
+        res = run.export()
+        res['info'] = []
+        return res
+    n = len(ff.log)
+    for p in hist_positions(n):
+        for kind in KINDS:
+            for variant in VARIANTS:
+                for middle in HIST_MIDDLE:
+                    if middle != 'none' and not any(
+                            o.name == middle for o in ops):
+                        continue
+                    fault = (p, kind, 99, variant)
+                    res, counts = history(cfg, ops, fault, middle)
+                    key = (cfg.name, 'history', p, kind, variant, middle)
+                    last = res[-1]
+                    bad = None
+                    if last[0] == 'exc':
+                        bad = last[1]
+                    elif last[0] == 'tce' and last[2] in (0, -1, -2):
+                        # a communication failure is reported although every
+                        # command of this operation (if any was sent) was
+                        # answered
+                        bad = 'communication-errno-%d-without-a-fault' % \
+                            last[2]
+                    run.outcome(('history', cfg.family, middle, res[0][0],
+                                 last[0]))
+                    run.count('histories:' + cfg.family)
+                    if bad is None:
+                        run.ok(key=key)
+                    else:
+                        run.fail('%s|history|write-fails,%s,write|%s' % (
+                            cfg.tagclass, middle, bad),
+                            dict(config=cfg.name, op='history', p=p,
+                                 kind=kind, variant=variant, middle=middle,
+                                 results=[describe(r) for r in res],
+                                 commands=counts), key=key, deviations=1)
+    run.sample(dict(config=cfg.name, op='history', n=n,
+                    positions=hist_positions(n), middle=list(HIST_MIDDLE)))
+    res = run.export()
+    res['info'] = []
+    return res
+
+
 STATE = {}
 
 
 def work(item):
+    if item[0] == 'history':
+        return work_history(item)
     ci, oi, kind, variant = item
     cfg = STATE['cfgs'][ci]
     op = STATE['ops'][ci][oi]
@@ -840,6 +939,11 @@ def main(tier='quick', seed=0, part=None):
             for kind in KINDS:
                 for variant in variants(tier):
                     items.append((ci, oi, kind, variant))
+    for ci, cfg in enumerate(cfgs):
+        # (Type 4: reader and card are out of step after a failed exchange -
+        # C12's recorded finding - so a later error proves nothing there)
+        if cfg.family != 'T4':
+            items.append(('history', ci))
     infos = []
     for res in par.pmap(work, par.shuffled(items, seed)):
         infos += res.pop('info')
@@ -850,7 +954,11 @@ def main(tier='quick', seed=0, part=None):
         "fault-free command sequence, error kind, burst length, loss "
         "variant); every case injects at least one fault and is counted as "
         "non-trivial; the fault-free run of every (configuration, operation) "
-        "is counted as a trivial evaluation")
+        "is counted as a trivial evaluation; histories (Type 1-3): ndef write "
+        "disturbed for good from command p on (thinned positions) x kind x "
+        "loss variant, then none / ndef read / is_present / dump, then the "
+        "write again, fault free, on ONE tag object - the last step must not "
+        "report a communication reason code or a foreign exception")
     run.assumptions += [
         "tag simulators sim/t1t,t2t,t3t,t4t, sim/ntag21x, sim/felica_lite and "
         "props/c16sims (UL-C 3DES step, FeliCa Standard commands) are the "
@@ -898,6 +1006,14 @@ def replay(doc):
     cfgs = setup('thorough', None)      # superset of the quick tier
     cfg = [c for c in cfgs if c.name == d['config']][0]
     ci = cfgs.index(cfg)
+    if d.get('op') == 'history':
+        res, counts = history(cfg, STATE['ops'][ci],
+                              (d['p'], d['kind'], 99, d['variant']),
+                              d['middle'])
+        print('replay:', [describe(r) for r in res], counts)
+        last = res[-1]
+        return 1 if last[0] == 'exc' or (
+            last[0] == 'tce' and last[2] in (0, -1, -2)) else 0
     op = [o for o in STATE['ops'][ci] if o.name == d['op']][0]
     try:
         ff = execute(cfg, op, None)
